@@ -618,8 +618,8 @@ pub fn property() -> Property {
                 fixed: None,
                 fixed_exhaustive: false,
                 check: check_cli,
-                quick: 640,
-                thorough: 24_000,
+                quick: 2_000,
+                thorough: 40_000,
                 small_stack: false,
             },
         ],
